@@ -49,8 +49,33 @@ def gen_feat(rng, i):
     if rng.random() < 0.4:
         attrs.append(["gene_id", ["G%d" % rng.randrange(3)]])
     s = rng.randrange(1, 500)
-    return imp.mkfeat(seqid=rng.choice(["chr1", "chr2", "chr:3"]), source=rng.choice(["src", "s2"]), type_=rng.choice(TYPES),
-                      s=s, e=s + rng.randrange(0, 90), strand=rng.choice("+-"), attrs=attrs)
+    return imp.mkfeat(seqid=rng.choice(["chr1", "chr2", "chr:3"]), source=rng.choice(["src", "s2", "."]), type_=rng.choice(TYPES),
+                      s=s, e=s + rng.randrange(0, 90), strand=rng.choice("+-."), attrs=attrs)
+
+
+GTF_SPECS = [
+    None,
+    {"t": "dict", "d": [["exon", ["str", "exon_id"]]]},
+    {"t": "dict", "d": [["transcript", ["list", [["attr", "transcript_name"], ["attr", "transcript_id"]]]]]},
+    {"t": "dict", "d": [["gene", ["str", "gene_id"]], ["transcript", ["str", "transcript_id"]]]},
+    {"t": "dict", "d": [["gene", ["str", "gene_name"]]]},
+    {"t": "str", "k": "gene_id"},
+    {"t": "list", "ks": [["attr", "exon_id"], ["attr", "transcript_id"]]},
+]
+
+
+def gen_gtf_feat(rng, i):
+    t = rng.choice(["gene", "transcript", "exon", "exon", "CDS"])
+    g = "G%d" % rng.randrange(3)
+    attrs = [["gene_id", [g]]]
+    if t != "gene":
+        attrs.append(["transcript_id", ["%s.t%d" % (g, rng.randrange(2))]])
+    if t == "exon" and rng.random() < 0.6:
+        attrs.append(["exon_id", ["E%d" % rng.randrange(4)]])
+    if rng.random() < 0.3:
+        attrs.append([rng.choice(["gene_name", "transcript_name"]), ["nm%d" % rng.randrange(3)]])
+    s = rng.randrange(1, 500)
+    return imp.mkfeat(seqid="chr1", source=rng.choice(["src", "."]), type_=t, s=s, e=s + rng.randrange(0, 90), strand=rng.choice("+-"), attrs=attrs)
 
 
 def gen_cases(rng, tier):
@@ -62,6 +87,12 @@ def gen_cases(rng, tier):
         strat = "error" if rng.random() < 0.7 else "create_unique"
         cases.append({"feats": feats, "spec": spec, "strategy": strat,
                       "absent": [rng.choice(["nope", "", "f0 ", "F0", "gene_9", "exon_0"]) for _ in range(2)]})
+    # the GTF importer: its default id_spec is a dict (gene -> gene_id, transcript -> transcript_id); a dict given by the
+    # caller is used as it stands
+    for i in range(n // 5):
+        feats = [gen_gtf_feat(rng, j) for j in range(rng.choice([1, 2, 3, 5, 8]))]
+        cases.append({"fmt": "gtf", "feats": feats, "spec": GTF_SPECS[i % len(GTF_SPECS)], "strategy": "create_unique" if i % 3 else "error",
+                      "absent": ["G9", "gene_9", rng.choice(["G0", "gene_1", "exon_1", "transcript_1"])]})
     return cases
 
 
@@ -94,7 +125,11 @@ def row_of_feature(f):
 
 
 def run_impl(c):
-    st, db = imp.run_create(c["feats"], id_spec=imp.spec_py(c["spec"]), merge_strategy=c["strategy"])
+    if c.get("fmt") == "gtf":
+        st, db = imp.run_create(c["feats"], fmt="gtf", id_spec=imp.spec_py(c["spec"]), merge_strategy=c["strategy"],
+                                disable_infer_genes=True, disable_infer_transcripts=True)
+    else:
+        st, db = imp.run_create(c["feats"], id_spec=imp.spec_py(c["spec"]), merge_strategy=c["strategy"])
     if st == "err":
         return {"tables": ["err", db], "lks": []}
     t = imp.dump_tables(db.conn)
@@ -116,7 +151,7 @@ def run_impl(c):
 
 def coq_case(c, o):
     lks = ["(LK %s %s)" % (L.s(k), L.res(r, lambda d: imp.coq_row(d, d["id"], d["bin"]))) for k, r in o["lks"]]
-    return "Case %s %s %s %s %s" % (imp.coq_spec(c["spec"]), imp.STRAT[c["strategy"]],
+    return "Case %s %s %s %s %s %s" % (L.b(c.get("fmt") == "gtf"), imp.coq_spec(c["spec"], c.get("fmt", "gff3")), imp.STRAT[c["strategy"]],
                                     L.lst([imp.coq_row(f) for f in c["feats"]], "row"), imp.res_tables(o["tables"]),
                                     L.lst(lks, "lookup"))
 
